@@ -27,6 +27,7 @@ func createLockFile(name string, perm os.FileMode) (LockFile, bool, error) {
 			}
 			return nil, false, err
 		}
+		verifYield("lock.flock")
 		// The previous owner may have removed the file after it was opened here.
 		// A lock on a removed file excludes nobody, make sure the locked file is still the one at the path.
 		locked, err := f.Stat()
